@@ -530,6 +530,23 @@ class _Expr(ast.NodeTransformer):
             red = beta_reduce(node)
             if red is not node:
                 return self.visit(red)
+        # "literal {a}".format(a=x, b=y): str.format ignores the keywords its template does not name (y a plain read)
+        if isinstance(node.func, ast.Attribute) and node.func.attr == "format" and isinstance(node.func.value, ast.Constant) \
+                and isinstance(node.func.value.value, str) and node.keywords and all(k.arg is not None for k in node.keywords):
+            try:
+                import string as _string
+                used = set()
+                for _lit, fld, spec, _conv in _string.Formatter().parse(node.func.value.value):
+                    for piece in (fld, spec):
+                        if piece:
+                            for _l2, f2, _s2, _c2 in _string.Formatter().parse(piece if piece is spec else "{%s}" % piece):
+                                if f2:
+                                    used.add(f2.split(".")[0].split("[")[0])
+                keep = [k for k in node.keywords if k.arg in used or not isinstance(k.value, (ast.Name, ast.Constant))]
+                if len(keep) != len(node.keywords):
+                    node.keywords = keep
+            except ValueError:
+                pass
         if isinstance(node.func, ast.Name) and node.func.id == "tuple" and not node.args and not node.keywords:
             return ast.Tuple(elts=[], ctx=ast.Load())
         if isinstance(node.func, ast.Name) and node.func.id == "vars" and len(node.args) == 1 and not node.keywords:
@@ -1122,11 +1139,31 @@ def _reuse_param_names(fn):
             for a in (st.value.body, st.value.orelse):
                 if isinstance(a, ast.Name) and a.id in params:
                     P = a.id
+        elif isinstance(st, ast.Assign) and len(st.targets) == 1 and isinstance(st.targets[0], ast.Name) \
+                and isinstance(st.value, ast.Call) and isinstance(st.value.func, ast.Name) and not st.value.keywords:
+            # L = convert(P, ..): the converted parameter
+            cands = [a.id for a in st.value.args if isinstance(a, ast.Name) and a.id in params and a.id != "self"]
+            if len(cands) == 1:
+                L, P = st.targets[0].id, cands[0]
         if L is None or P is None or L in params or L == P:
             continue
-        stores_L = sum(1 for n in ast.walk(fn) if isinstance(n, ast.Name) and n.id == L and isinstance(n.ctx, (ast.Store, ast.Del)))
-        here_L = sum(1 for n in ast.walk(st) if isinstance(n, ast.Name) and n.id == L and isinstance(n.ctx, (ast.Store, ast.Del)))
-        if stores_L != here_L or any(_count_loads(s_, L) for s_ in body[:i]):
+        def mentions(node_):
+            return any(isinstance(n, ast.Name) and n.id == L for n in ast.walk(node_))
+
+        def dead_end(stmt_):
+            """every mention of L inside this earlier statement is in a block that leaves the function: another variable
+            of the same name, as far as the code from here on is concerned"""
+            if not mentions(stmt_):
+                return True
+            if isinstance(stmt_, ast.If) and not mentions(stmt_.test):
+                for arm in (stmt_.body, stmt_.orelse):
+                    if any(mentions(x) for x in arm) and not _exits_function(arm) and not all(dead_end(x) for x in arm):
+                        return False
+                return True
+            return False
+        later_stores = sum(1 for s_ in body[i + 1:] for n in ast.walk(s_) if isinstance(n, ast.Name) and n.id == L
+                           and isinstance(n.ctx, (ast.Store, ast.Del)))
+        if later_stores or not all(dead_end(s_) for s_ in body[:i]):
             continue
         if any(isinstance(n, ast.Name) and n.id == P for s_ in body[i + 1:] for n in ast.walk(s_)):
             continue
@@ -1146,6 +1183,29 @@ def _reuse_param_names(fn):
     return changed
 
 
+def _product_loops_in_view(fn):
+    changed = False
+    # a, b = E1, E2 outside any try: the sequence (a value that raises ends the function either way)
+    if not any(isinstance(n, ast.Try) for n in ast.walk(fn)):
+        for blk in _blocks_of(fn):
+            i = 0
+            while i < len(blk):
+                rew = _tuple_assign_rewrite(blk[i], lenient=True) if isinstance(blk[i], ast.Assign) and isinstance(
+                    blk[i].value, ast.Tuple) else None
+                if rew:
+                    blk[i:i + 1] = rew
+                    changed = True
+                i += 1
+    for blk in _blocks_of(fn):
+        for i, st in enumerate(blk):
+            if isinstance(st, ast.For):
+                pl_ = _product_loop(st, fn)
+                if pl_ is not None:
+                    blk[i] = pl_
+                    changed = True
+    return changed
+
+
 def simplify_views(tree, ref_tree):
     """Functions that are neither identical to nor proved equivalent with their confirmed namesake are still read by
     the rules as they stand.  Two rewrites that cannot change behaviour make them easier to read: flags computed once
@@ -1161,7 +1221,7 @@ def simplify_views(tree, ref_tree):
         for _ in range(4):
             c1 = _propagate_pure(node, only_flags=True)
             c2 = _inline_accessors(node)
-            c3 = _inline_read_aliases(node) or _reuse_param_names(node)
+            c3 = _inline_read_aliases(node) or _reuse_param_names(node) or _product_loops_in_view(node)
             # a list built by an append loop where the confirmed function builds its lists by comprehensions only
             c4 = (not _append_loops(r)) and any(isinstance(n, ast.ListComp) for n in ast.walk(r)) and _loops_to_comprehensions(node)
             if not (c1 or c2 or c3 or c4):
@@ -1362,7 +1422,7 @@ def _decide_test(test, x, values):
     return rs.pop() if len(rs) == 1 else None
 
 
-def _tuple_assign_rewrite(st):
+def _tuple_assign_rewrite(st, lenient=False):
     """T1, T2 = (A1, A2) if c else (B1, B2)   ->   if c: T1, T2 = A1, A2  else: T1, T2 = B1, B2
     T1, T2 = V1, V2  ->  T1 = V1; T2 = V2   when no value reads an earlier (really assigned) target and nothing that
     can raise comes after a real assignment (``x = x`` is none and goes).  Returns the replacement statements or None."""
@@ -1388,7 +1448,7 @@ def _tuple_assign_rewrite(st):
         later_targets = [t.id for t in tg.elts]
         for k, (t_, v_) in enumerate(zip(tg.elts, st.value.elts)):
             selfish = isinstance(v_, ast.Name) and v_.id == t_.id
-            if real and not isinstance(v_, (ast.Name, ast.Constant)):
+            if real and not isinstance(v_, (ast.Name, ast.Constant)) and not lenient:
                 return None
             if {n_.id for n_ in _names(v_, ast.Load)} & real:
                 return None
@@ -1416,6 +1476,43 @@ def _tuple_assign_prepass(f):
                             blk[i:i + 1] = rew or [ast.Pass()]
                             changed = True
                         i += 1
+
+
+def _product_loop(st, root):
+    """for A, B in product(X, Y): BODY   ->   for A in X: for B in Y: BODY      (X, Y lists built in this function that BODY
+    does not touch; no ``break``: it would only leave the inner loop).  Returns the nested loop or None."""
+    if not (isinstance(st, ast.For) and not st.orelse and isinstance(st.target, ast.Tuple) and len(st.target.elts) == 2
+            and isinstance(st.iter, ast.Call) and ast.unparse(st.iter.func) in ("product", "it.product", "itertools.product")
+            and len(st.iter.args) == 2 and not st.iter.keywords and all(isinstance(a, ast.Name) for a in st.iter.args)):
+        return None
+
+    def list_local(nm):
+        binds = [n for n in ast.walk(root) if isinstance(n, ast.Assign) and any(
+            isinstance(t, ast.Name) and t.id == nm for t in n.targets)]
+        stores = sum(1 for n in ast.walk(root) if isinstance(n, ast.Name) and n.id == nm
+                     and isinstance(n.ctx, (ast.Store, ast.Del)))
+        return len(binds) == 1 and stores == 1 and isinstance(binds[0].value, (ast.ListComp, ast.List))
+    xs, ys = st.iter.args
+    body_names = {n.id for b_ in st.body for n in ast.walk(b_) if isinstance(n, ast.Name)}
+
+    def own_break(stmts_):
+        for b_ in stmts_:
+            if isinstance(b_, ast.Break):
+                return True
+            if isinstance(b_, (ast.For, ast.While) + FuncTypes):
+                continue
+            for fld_ in ("body", "orelse", "finalbody"):
+                if own_break(getattr(b_, fld_, []) or []):
+                    return True
+            for h_ in getattr(b_, "handlers", []) or []:
+                if own_break(h_.body):
+                    return True
+        return False
+    if list_local(xs.id) and list_local(ys.id) and xs.id not in body_names and ys.id not in body_names \
+            and not own_break(st.body):
+        inner = ast.For(target=st.target.elts[1], iter=ys, body=st.body, orelse=[], lineno=st.lineno, col_offset=0)
+        return ast.For(target=st.target.elts[0], iter=xs, body=[inner], orelse=[], lineno=st.lineno, col_offset=0)
+    return None
 
 
 def _norm_simple(stmts, ctx):
@@ -1584,38 +1681,10 @@ def _norm_simple(stmts, ctx):
                 stmts[i:i + 1] = rew
                 changed = True
                 continue
-            # for A, B in product(X, Y): BODY   ->   for A in X: for B in Y: BODY      (X, Y lists built in this function
-            # that BODY does not touch; no ``break``: it would only leave the inner loop)
-            if isinstance(st, ast.For) and not st.orelse and isinstance(st.target, ast.Tuple) and len(st.target.elts) == 2 \
-                    and isinstance(st.iter, ast.Call) and ast.unparse(st.iter.func) in ("product", "it.product", "itertools.product") \
-                    and len(st.iter.args) == 2 and not st.iter.keywords \
-                    and all(isinstance(a, ast.Name) for a in st.iter.args) and ctx.get("root") is not None:
-                def list_local(nm):
-                    binds = [n for n in ast.walk(ctx["root"]) if isinstance(n, ast.Assign) and any(
-                        isinstance(t, ast.Name) and t.id == nm for t in n.targets)]
-                    stores = sum(1 for n in ast.walk(ctx["root"]) if isinstance(n, ast.Name) and n.id == nm
-                                 and isinstance(n.ctx, (ast.Store, ast.Del)))
-                    return len(binds) == 1 and stores == 1 and isinstance(binds[0].value, (ast.ListComp, ast.List))
-                xs, ys = st.iter.args
-                body_names = {n.id for b_ in st.body for n in ast.walk(b_) if isinstance(n, ast.Name)}
-
-                def own_break(stmts_):
-                    for b_ in stmts_:
-                        if isinstance(b_, ast.Break):
-                            return True
-                        if isinstance(b_, (ast.For, ast.While) + FuncTypes):
-                            continue
-                        for fld_ in ("body", "orelse", "finalbody"):
-                            if own_break(getattr(b_, fld_, []) or []):
-                                return True
-                        for h_ in getattr(b_, "handlers", []) or []:
-                            if own_break(h_.body):
-                                return True
-                    return False
-                if list_local(xs.id) and list_local(ys.id) and xs.id not in body_names and ys.id not in body_names \
-                        and not own_break(st.body):
-                    inner = ast.For(target=st.target.elts[1], iter=ys, body=st.body, orelse=[], lineno=st.lineno, col_offset=0)
-                    st = ast.For(target=st.target.elts[0], iter=xs, body=[inner], orelse=[], lineno=st.lineno, col_offset=0)
+            if isinstance(st, ast.For) and ctx.get("root") is not None:
+                pl_ = _product_loop(st, ctx["root"])
+                if pl_ is not None:
+                    st = pl_
                     stmts[i] = st
                     changed = True
             # for x in map(f, S): BODY   ->   for x in S: x = f(x); BODY        (lazy map: same interleaving)
@@ -2450,6 +2519,15 @@ def _norm_region(stmts, kind, ctx):
             rest = stmts[i + 1:]
             if 1 <= len(rest) <= 2 and _always_leaves(rest) and not any(
                     isinstance(r, (ast.For, ast.While, ast.Try, ast.With, ast.If) + FuncTypes) for r in rest):
+                st.body = list(st.body) + copy.deepcopy(rest)
+                st.orelse = list(st.orelse) + copy.deepcopy(rest)
+                stmts = stmts[:i + 1]
+                break
+            # the same where falling off the end is leaving (end of a function, end of a loop body): a tail of one or
+            # two simple statements
+            if kind in ("func", "loop") and 1 <= len(rest) <= 2 and not any(
+                    isinstance(r, (ast.For, ast.While, ast.Try, ast.With, ast.If) + FuncTypes + (ast.ClassDef,)) for r in rest) \
+                    and st.orelse:
                 st.body = list(st.body) + copy.deepcopy(rest)
                 st.orelse = list(st.orelse) + copy.deepcopy(rest)
                 stmts = stmts[:i + 1]
